@@ -119,6 +119,7 @@ type caseB struct {
 	steps  []string
 	cur    string // carrier variable
 	ty     *Ty
+	reuse  map[string][]string // carrier type -> call formats ("h(\"k\", %s)") of identity helpers already declared
 }
 
 func (g *gen) has(f Feature) bool { return g.o.Features&f != 0 }
@@ -132,6 +133,13 @@ func (g *gen) reg(t *Ty) *Ty {
 		}
 	}
 	return t
+}
+
+func (b *caseB) remember(ts, callFmt string) {
+	if b.reuse == nil {
+		b.reuse = map[string][]string{}
+	}
+	b.reuse[ts] = append(b.reuse[ts], callFmt)
 }
 
 func (b *caseB) fresh(p string) string { b.n++; return fmt.Sprintf("%s%d", p, b.n) }
@@ -343,10 +351,27 @@ func (b *caseB) step() string {
 		if b.pick(2) == 0 {
 			b.decl("func %s(a string, x %s) %s { return x }", h, ts, ts)
 			b.emit(`%s := %s("k", %s)`, v, h, c)
+			b.remember(ts, h+`("k", %s)`)
 		} else {
 			b.decl("func %s(x %s, a string) %s {\n\ty := x\n\treturn y\n}", h, ts, ts)
 			b.emit(`%s := %s(%s, "k")`, v, h, c)
+			b.remember(ts, h+`(%s, "k")`)
 		}
+		if b.pick(2) == 0 { // call the same helper again with its own result: two contexts of one function
+			fs := b.reuse[ts]
+			v2 := b.v()
+			b.emit("%s := "+fs[len(fs)-1], v2, v)
+			b.steps = append(b.steps, "call-twice")
+			b.set(v2, t)
+			return
+		}
+		b.set(v, t)
+	})
+	add(FCall, "call-reuse", 6, len(b.reuse[ts]) > 0, func() {
+		// a second call site of a helper of this case: the flow needs the call-stack context
+		fs := b.reuse[ts]
+		v := b.v()
+		b.emit("%s := "+fs[b.pick(len(fs))], v, c)
 		b.set(v, t)
 	})
 	add(FMultiRet, "multi-ret", 3, true, func() {
@@ -411,6 +436,7 @@ func (b *caseB) step() string {
 		b.decl("func %s(x %s) %s { return x }", h, ts, ts)
 		b.emit("%s := %s", a, h)
 		b.emit("%s := %s(%s)", v, a, c)
+		b.remember(ts, h+"(%s)")
 		b.set(v, t)
 	})
 	add(FFuncVal, "apply", 3, true, func() {
